@@ -25,6 +25,8 @@ pub mod trace;
 pub mod transform;
 pub mod vcell;
 pub mod vector;
+#[cfg(feature = "verif-hooks")]
+pub mod verif;
 
 const HEAP_CHUNK_SIZE: usize = 8192;
 
@@ -48,6 +50,10 @@ pub struct Vm {
 
     /// Stacktrace of last error
     last_stacktrace: Option<StackTrace>,
+
+    /// Verification hook state
+    #[cfg(feature = "verif-hooks")]
+    verif: verif::VerifState,
 }
 
 impl Vm {
@@ -65,6 +71,28 @@ impl Vm {
             bp: 0,
             sys: Box::new(StubInterface {}),
             last_stacktrace: None,
+            #[cfg(feature = "verif-hooks")]
+            verif: verif::VerifState::new(),
+        };
+        vm.load_builtins();
+        vm.load_prelude();
+        vm
+    }
+
+    /// New VM with another initial heap chunk size (a multiple of 4)
+    #[cfg(feature = "verif-hooks")]
+    pub fn verif_with_chunk(chunk_size: usize) -> Vm {
+        let mut vm = Vm {
+            heap: Heap::new(chunk_size),
+            ip: (usize::MAX, 0),
+            stack: Stack::new(),
+            globenv: GlobalEnvironment::new(),
+            ep: usize::MAX,
+            acc: VCell::undefined(),
+            bp: 0,
+            sys: Box::new(StubInterface {}),
+            last_stacktrace: None,
+            verif: verif::VerifState::new(),
         };
         vm.load_builtins();
         vm.load_prelude();
